@@ -111,6 +111,10 @@ func runC12(c *Ctx) {
 		{"refresh-rejected", "old", "badsig", "verify"},
 		{"refresh-accepted-none", "old", "new", "none"},
 		{"first-load-v1", "", "v1", "verify"},
+		// without signature verification nothing but the staging discipline keeps a partial or rejected list out
+		{"first-load-accepted-none", "", "old", "none"},
+		{"first-load-rejected-none", "", "critical", "none"},
+		{"first-load-accepted-verify_log", "", "old", "verify_log"},
 	}
 	var images []*crashImage
 	var items []string
